@@ -26,6 +26,7 @@ class Ref:
         self.run = None
         self.started = False
         self.complete = False       # the reference reached its end (done) or its first failure
+        self.crashed = None         # the reference process died / its event log overflowed: (kind) - C15 owns that verdict
         self.startup_err = ""
         self.cmds = []
 
@@ -79,6 +80,9 @@ def reference(ctx, scn, ev, max_steps=None, observe=True):
     for c in cmds[1:]:
         if c.reply is None:
             break       # the run ended early (crash): whatever was reached is the reference
+        if c.reply[0] == "crashed":
+            ref.crashed = c.reply[1]
+            break
         ref.replies.append(c.reply)
         ref.echo.append(c.echo)
         if c.reply[0] == "accepted":
@@ -91,5 +95,7 @@ def reference(ctx, scn, ev, max_steps=None, observe=True):
         else:
             ref.fail = (ref.L + 1, c.reply[1])
             break
-    ref.complete = ref.finished or ref.fail is not None
+    if not r.normal() and ref.crashed is None:
+        ref.crashed = r.classify()[0]
+    ref.complete = (ref.finished or ref.fail is not None) and ref.crashed is None
     return ref
